@@ -311,6 +311,9 @@ func (e *hEnv) dirTarget(depth int) string {
 		up(depth) + "out.old",
 		filepath.Join(e.S, "out.old"),
 		up(depth) + "out.old/sub",
+		filepath.Join(e.S, "sealed"),
+		up(depth) + "sealed",
+		filepath.Join(e.S, "victimdir", "etc"),
 	}
 	return ts[e.r.Intn(len(ts))]
 }
@@ -388,7 +391,7 @@ func c17Shapes() []c17Shape {
 		{label: "name with separator through symlink", wrote: true, dir: func(e *hEnv, d int) ([]hEntry, []string) {
 			t := e.dirTarget(d)
 			ents := []hEntry{hEnt("d", hSym(t))}
-			for _, nm := range []string{"d/file", "d/victim.txt", "d/created-by-escape", "d/victimdir/file", "d/newsub/x"} {
+			for _, nm := range []string{"d/file", "d/victim.txt", "d/created-by-escape", "d/victimdir/file", "d/newsub/x", "d/etc/cron.d/job", "d/etc/passwd", "d/etc/newdir/inner.txt", "d/cron.d/job", "d/victimdir/etc/passwd"} {
 				if e.r.Intn(2) == 0 {
 					ents = append(ents, hEnt(nm, e.anyObject(d+1)))
 				}
@@ -397,6 +400,15 @@ func c17Shapes() []c17Shape {
 				ents = append(ents, hEnt("d/file", e.file("through")))
 			}
 			return ents, []string{"d/file", "d"}
+		}},
+		{label: "name with several separators through symlink into an existing tree", wrote: true, dir: func(e *hEnv, d int) ([]hEntry, []string) {
+			// every intermediate component of the later names exists below the link's target
+			t := []string{filepath.Join(e.S, "victimdir"), up(d) + "victimdir"}[e.r.Intn(2)]
+			ents := []hEntry{hEnt("d", hSym(t)), hEnt("d/etc/cron.d/job", e.file("job")), hEnt("d/etc/passwd", e.file("passwd"))}
+			if e.r.Intn(2) == 0 {
+				ents = append(ents, hEnt("d/etc/newdir", hDir(hEnt("inner.txt", e.file("inner")))))
+			}
+			return ents, []string{"d"}
 		}},
 		{label: "name unknown", wrote: true, dir: func(e *hEnv, d int) ([]hEntry, []string) {
 			return []hEntry{hEnt("unknown", e.anyObject(d))}, []string{"unknown"}
@@ -755,6 +767,13 @@ func c17MakeBox(r *rand.Rand, state string) c17Box {
 	must(os.MkdirAll(filepath.Join(S, "victimdir"), 0o755))
 	must(os.WriteFile(filepath.Join(S, "victim.txt"), []byte("sentinel: must never change\n"), 0o644))
 	must(os.WriteFile(filepath.Join(S, "victimdir", "file"), []byte("sentinel in a directory\n"), 0o600))
+	// a deeper sentinel tree (entry names with several separators find every intermediate component there)
+	must(os.MkdirAll(filepath.Join(S, "victimdir", "etc", "cron.d"), 0o755))
+	must(os.WriteFile(filepath.Join(S, "victimdir", "etc", "passwd"), []byte("sentinel below two directories\n"), 0o644))
+	// a sentinel directory that lacks an owner permission bit (a read-only tree someone left behind)
+	must(os.MkdirAll(filepath.Join(S, "sealed"), 0o755))
+	must(os.WriteFile(filepath.Join(S, "sealed", "file"), []byte("sentinel in a sealed directory\n"), 0o400))
+	must(os.Chmod(filepath.Join(S, "sealed"), 0o500))
 	must(os.Symlink("out", filepath.Join(S, "outlink")))
 	// a sibling whose path has the output directory's path as a *string* prefix (out vs out.old)
 	must(os.MkdirAll(filepath.Join(S, "out.old", "sub"), 0o755))
